@@ -114,9 +114,9 @@ NewDGM(newdus, map, path, acc) ==      \* acc = [groups: set of [id, parent], ma
                   bad |-> acc.bad \/ missing])
 
 \* ---- execution ---------------------------------------------------------------------------
-\* acc = [groups, tasks: set of [path, gs: set of group, keys: set], execs: set of [path, key, dus], bad]
+\* acc = [groups, tasks: set of [path, gs: set of group, keys: set, soon: BOOLEAN], execs: set of [path, key, dus], bad]
 Acc0 == [groups |-> {}, tasks |-> {}, execs |-> {}, bad |-> FALSE]
-RECURSIVE ExecCollected(_, _, _, _, _, _), ExecSets(_, _, _, _, _, _), ExecKeys(_, _, _, _, _, _, _)
+RECURSIVE ExecCollected(_, _, _, _, _, _), ExecSets(_, _, _, _, _, _, _), ExecKeys(_, _, _, _, _, _, _)
 
 \* execute_collected_root_fields / execute_collected_subfields: c = the collected fields of the object at path
 ExecCollected(D, path, c, map, edus, acc) ==
@@ -126,16 +126,19 @@ ExecCollected(D, path, c, map, edus, acc) ==
            plan == BuildPlan(D, c.fields, ks, edus, [init |-> <<>>, sets |-> <<>>])
            acc1 == [acc EXCEPT !.groups = @ \cup nm.groups, !.bad = @ \/ nm.bad]
            acc2 == ExecKeys(D, path, c.fields, plan.init, nm.map, edus, acc1)
-       IN ExecSets(D, path, c.fields, plan.sets, nm.map, acc2)
+       IN ExecSets(D, path, c.fields, plan.sets, nm.map, edus, acc2)
 
 \* collect_execution_groups: one execution group (task) per new defer-usage set, executed by a sub-executor with that set
-ExecSets(D, path, fds, sets, map, acc) ==
+ExecSets(D, path, fds, sets, map, edus, acc) ==
   IF sets = <<>> THEN acc
   ELSE LET s == Head(sets)
            missing == \E d \in s.dus : ~Has(map, d)
            gs == {Get(map, d) : d \in {e \in s.dus : Has(map, e)}}
-           acc1 == [acc EXCEPT !.tasks = @ \cup {[path |-> path, gs |-> gs, keys |-> SeqSet(s.keys)]}, !.bad = @ \/ missing]
-       IN ExecSets(D, path, fds, Tail(sets), map, ExecKeys(D, path, fds, s.keys, map, s.dus, acc1))
+           \* should_defer (early execution): a group with a defer usage that is new to this executor is primed only after the
+           \* current step (soon); one whose usages all belong to the executor's own set is in the midst of executing early (now)
+           soon == edus = {} \/ ~(s.dus \subseteq edus)
+           acc1 == [acc EXCEPT !.tasks = @ \cup {[path |-> path, gs |-> gs, keys |-> SeqSet(s.keys), soon |-> soon]}, !.bad = @ \/ missing]
+       IN ExecSets(D, path, fds, Tail(sets), map, edus, ExecKeys(D, path, fds, s.keys, map, s.dus, acc1))
 
 \* execute_fields: every key is executed by this executor; object fields collect and execute their subfields
 ExecKeys(D, path, fds, ks, map, edus, acc) ==
